@@ -228,8 +228,16 @@ func (g *gen) str(d int) *xp.E {
 	case 4, 5:
 		return xp.Call("substring", g.arg('s', d-1), g.substrNum(d-1), g.substrNum(d-1))
 	case 6:
+		if g.pick(2, "related") == 0 {
+			a, b := g.relatedPair()
+			return xp.Call("substring-before", a, b)
+		}
 		return xp.Call("substring-before", g.arg('s', d-1), g.arg('s', d-1))
 	case 7:
+		if g.pick(2, "related") == 0 {
+			a, b := g.relatedPair()
+			return xp.Call("substring-after", a, b)
+		}
 		return xp.Call("substring-after", g.arg('s', d-1), g.arg('s', d-1))
 	case 8:
 		if g.pick(6, "ln") == 0 {
@@ -239,6 +247,20 @@ func (g *gen) str(d int) *xp.E {
 	default:
 		return xp.Call("translate", g.arg('s', d-1), g.arg('s', d-1), g.arg('s', d-1))
 	}
+}
+
+// relatedPair: a string and a piece of it (so that searching finds something), with multi-byte characters before,
+// inside and after the piece
+func (g *gen) relatedPair() (*xp.E, *xp.E) {
+	hay := []string{"Zürich/Hauptbahnhof", "München: Uplink 1", "日本語-テスト-日本語", "aébécé", "abcabc", "a b c", "x=1;y=2", "日a日a", "é", "\U0001F600:x:\U0001F600", "ßß|ßß"}[g.pick(11, "hay")]
+	rs := []rune(hay)
+	i := g.pick(len(rs), "from")
+	j := i + 1 + g.pick(len(rs)-i, "len")
+	needle := string(rs[i:j])
+	if g.pick(6, "miss") == 0 {
+		needle = "#"
+	}
+	return xp.Lit(hay), xp.Lit(needle)
 }
 
 // substring positions: small numbers, negatives, fractions and specials matter
@@ -277,6 +299,10 @@ func (g *gen) boolean(d int) *xp.E {
 	case 2:
 		return xp.Call("not", g.arg('b', d-1))
 	case 3:
+		if g.pick(3, "relcsw") == 0 {
+			a, b := g.relatedPair()
+			return xp.Call([]string{"contains", "starts-with"}[g.pick(2, "cswfn")], a, b)
+		}
 		if g.pick(2, "csw") == 0 {
 			return xp.Call("contains", g.arg('s', d-1), g.arg('s', d-1))
 		}
